@@ -61,6 +61,9 @@ type W struct {
 
 // New builds a fresh chain with nVal genesis validators.
 func New(t *testing.T, nVal int) *W {
+	if os.Getenv("VERIF_DET") != "" {
+		return NewDet(t, nVal) // fixed key material and genesis: executions comparable across processes
+	}
 	cfgOnce.Do(func() { fxtypes.SetConfig(true) })
 	w := &W{keys: map[string]*helpers.Signer{}}
 	w.MintValNumber = nVal
